@@ -209,3 +209,6 @@ OBLIGATIONS.append(Obl("ot_fixpoint", ot_fixpoint,
                        {"container": I(0, 1), "tagging": I(0, 2), "vector": I(0, 2), "cer": B, "which": I(1, 4), "n": I(127, 128), "k": I(0, 1), "f0": B, "nelem": I(0, 2)},
                        shards=[{"container": C(c_), "tagging": C(t_), "vector": C(v_), "cer": C(x_)} for c_ in (0, 1) for t_ in (0, 1, 2) for v_ in (0, 1, 2) for x_ in (False, True)],
                        budget=90, thorough={"n": I(-300, 300)}, doc="DER/CER fixpoint through decode for values holding typed open-type inner values"))
+
+# quick tier: entries added for other properties' sake run in the thorough tier only here
+demote(OBLIGATIONS, ['seq_hitags', 'seq_hitags.E', 'seq_wide', 'seq_optnull', 'seqof_choice_cons', 'choice_cons'])
